@@ -534,6 +534,19 @@ func runC14(rc *fw.RunCtx) {
 			hostileGenerated = true
 		}
 		main = hostile + "\n\"reached\"\n"
+		if hostileGenerated {
+			// if the odd spelling is accepted it names some file under the root:
+			// ordinary imports of every module follow, and no module body may run
+			// twice whatever the first statement was taken to mean
+			var b strings.Builder
+			b.WriteString(hostile + "\n")
+			for i, m := range prog.Mods {
+				st, _ := importStmt(m, g.Intn(5), fmt.Sprintf("hz%d", i))
+				b.WriteString(st + "\n")
+			}
+			b.WriteString("\"reached\"\n")
+			main = b.String()
+		}
 	case mode <= 2:
 		// concurrent importers: each goroutine imports the same modules and
 		// bumps them once; afterwards main imports them and reads the states
@@ -693,6 +706,12 @@ func runC14(rc *fw.RunCtx) {
 			rc.Hit("mode_hostile_generated")
 			if out.Err == nil {
 				rc.Hit("hostile_generated_accepted_inside_root")
+			}
+			for _, m := range prog.Mods {
+				if th.ticks[m.Path] > 1 {
+					rc.Violate("once/odd-spelling", "module %s ran its top-level code %d times in one evaluation (program %q)", m.Path, th.ticks[m.Path], main)
+					return
+				}
 			}
 			return
 		}
